@@ -8,8 +8,8 @@ Register r11("C11", [](Tier t) {
     auto ops = genOps({{NOTIFY, 14, 3, 7, 63}, {SUBSCRIBE, 7, 3, 7, 63}, {UNSUBSCRIBE, 5, 3, 7, 0}, {SHRINK, 3, 3, 7, 63}, {EXISTS, 2, 3, 7, 63}, {DEPTH, 1, 3, 0, 0}},
                       t == THOROUGH ? 44 : 28);
     // h[0]: threads - 2 (0..2), h[1]: pre-populated subscriptions (0..3), h[2]: their key selector
-    return rc::gen::weightedOneOf<Case>({{4, genCase("C11", genHeader({{0, 2}, {0, 3}, {0, 7}, {0, 0}}), ops, genSched(t == THOROUGH ? 200 : 120))},
-                                         {1, genCase("C11", genHeader({{0, 2}, {0, 3}, {0, 7}, {1, 1}}), ops, genSchedPCT())}});
+    return rc::gen::weightedOneOf<Case>({{4, genCase("C11", genHeader({{0, 2}, {0, 3}, {0, 7}, {0, 0}, {0, 3}}), ops, genSched(t == THOROUGH ? 200 : 120))},
+                                         {1, genCase("C11", genHeader({{0, 2}, {0, 3}, {0, 7}, {1, 1}, {0, 3}}), ops, genSchedPCT())}});
 });
 
 // ---- small-scope program space: 2 threads, each a sequence of 1-2 ops from {notify /a, subscribe /a, unsubscribe own, shrink /*},
